@@ -5,7 +5,10 @@ import (
 	"fmt"
 	"os"
 	"path/filepath"
+	"sync"
 	"testing"
+	"verifharness/conv"
+	"verifharness/impl"
 
 	"pgregory.net/rapid"
 	"verifharness/evid"
@@ -812,6 +815,71 @@ func TestStringMembershipV2(t *testing.T) {
 		}
 	}
 	evid.Exhaustive("needle x haystack over valid, invalid and partial encodings; for-in characters as needles", n)
+}
+
+// TestConcurrentRunsV2: one loaded v2 script run by several goroutines at once, each run with an input of its own
+// (pmode()): every run computes what the reference computes for its input - the runs share the program, nothing else.
+func TestConcurrentRunsV2(t *testing.T) {
+	src := "m = pmode()\nacc = 0\nx = 0\ns = \"\"\nfor i = 0; i < 150; i = i + 1 {\n  acc = acc + (m * 3 + i) % 7\n  if (m + i) % 2 == 0 || acc < 0 {\n    acc = acc + 1\n  }\n  l = [m, i, acc]\n  x = l[0] + l[1] + len(l)\n  s = \"v\" + \"w\"\n}\nprobe(\"r\", m, acc, x, s)"
+	stmts, perr, crash := impl.Parse("main.p", src)
+	if perr != nil || crash != nil {
+		t.Fatalf("harness: %v %v", perr, crash)
+	}
+	tree, cv := conv.Stmts(stmts)
+	if cv.Err != nil {
+		t.Fatalf("harness: %v", cv.Err)
+	}
+	base := sem.NewCase(tree)
+	base.V2 = true
+	base.Texts = map[string]string{"main.p": src}
+	base.Fuel = 100000
+	ld := sem.LoadV2(base)
+	want := map[int64]string{}
+	for m := int64(0); m < 8; m++ {
+		c := *base
+		c.Mode = m
+		mo := sem.RunModel(&c, map[string]int{}, nil)
+		if mo.Err != nil || mo.Discard != nil || len(mo.Trace) != 1 {
+			t.Fatalf("harness: reference run failed: %v %v", mo.Err, mo.Discard)
+		}
+		want[m] = mo.Trace[0].String()
+	}
+	n := 0
+	for rep := 0; rep < evid.Scale(40, 400); rep++ {
+		var wg sync.WaitGroup
+		got := make([]string, 8)
+		start := make(chan struct{})
+		for g := 0; g < 8; g++ {
+			wg.Add(1)
+			go func(g int) {
+				defer wg.Done()
+				c := *base
+				c.Mode = int64(g)
+				<-start
+				io := ld.Run(&c, &probe.Sig{})
+				switch {
+				case io.Crash != nil:
+					got[g] = "CRASH " + io.Crash.Value
+				case io.Err != nil:
+					got[g] = "ERR " + io.Err.Error()
+				case len(io.Trace) != 1:
+					got[g] = fmt.Sprintf("%d records", len(io.Trace))
+				default:
+					got[g] = io.Trace[0].String()
+				}
+			}(g)
+		}
+		close(start)
+		wg.Wait()
+		for g := 0; g < 8; g++ {
+			if got[g] != want[int64(g)] {
+				rk.Fail(t, "concurrent-v2", base.Replay(fmt.Sprintf("eight overlapping runs of one loaded script, pmode() = 0..7; the run with pmode() = %d", g)), "v2: a run that overlaps other runs of the same loaded script computed %s, the reference computes %s\nscript:\n%s", got[g], want[int64(g)], src)
+			}
+			n++
+		}
+	}
+	evid.Case("concurrent-v2", true, "concurrent-runs-v2")
+	evid.Exhaustive("eight overlapping runs of one loaded v2 script x repetitions", n)
 }
 
 func TestFixedDialect(t *testing.T) {
